@@ -59,8 +59,9 @@ Definition GInv (cfg : list acfg) (s : state) : Prop := Forall2 AInv (map c_sess
 
 Lemma ainv_init c : AInv (c_sess c) (init_assoc c).
 Proof.
-  destruct c as [sess hb [d|]]; destruct hb; unfold AInv, fn_ok, Data, init_assoc; cbn;
-  repeat (split; try reflexivity); try (right; split; [reflexivity|discriminate]).
+  destruct c as [sess hb [d|]]; destruct hb; unfold AInv, fn_ok, Data, tmo_ok, code_len, init_assoc; cbn;
+  repeat (split; try reflexivity); try (left; reflexivity);
+  try (right; split; [reflexivity|split; [discriminate|lia]]).
 Qed.
 
 Lemma ginv_init cap cfg ev : GInv cfg (init_cap cap cfg ev).
@@ -69,11 +70,11 @@ Proof.
 Qed.
 
 Lemma ainv_set_inbox sess a v : AInv sess a -> AInv sess (set_inbox a v).
-Proof. destruct a. unfold AInv, fn_ok, Data. cbn. destruct a_once as [|r|]; cbn; tauto. Qed.
+Proof. destruct a. exact (fun H => H). Qed.
 Lemma ainv_set_tmo_armed sess a v : AInv sess a -> AInv sess (set_tmo_armed a v).
-Proof. destruct a. unfold AInv, fn_ok, Data. cbn. destruct a_once as [|r|]; cbn; tauto. Qed.
+Proof. destruct a. exact (fun H => H). Qed.
 Lemma ainv_set_hb_armed sess a v : AInv sess a -> AInv sess (set_hb_armed a v).
-Proof. destruct a. unfold AInv, fn_ok, Data. cbn. destruct a_once as [|r|]; cbn; tauto. Qed.
+Proof. destruct a. exact (fun H => H). Qed.
 
 Lemma ginv_env cfg s e : GInv cfg s -> GInv cfg (apply_env s e).
 Proof.
@@ -135,7 +136,7 @@ Lemma ainv_prefix sess a : AInv sess a -> exists rest, a_del a ++ rest = sess.
 Proof.
   intros (Hrd & Hsel & Hhb & Hfst & Hd & _). unfold Data in Hd. destruct (a_once a) as [|r0|].
   - destruct Hd as (-> & _). exists sess. reflexivity.
-  - destruct Hd as [_ Hb]. unfold Body in Hb.
+  - destruct Hd as (_ & _ & _ & Hb). unfold Body in Hb.
     destruct (t_pc (get_thr a r0)) as [|[|[|[|[|[|[|[|p]]]]]]]]; try (exfalso; exact Hb).
     + destruct Hb as (-> & _). exists sess. reflexivity.
     + destruct Hb as (-> & _). exists sess. reflexivity.
